@@ -45,7 +45,24 @@ def _branch_pairs():
 
 
 BRANCH_PAIRS = _branch_pairs()
+def _statements_near_the_line_limit(depth, limit):
+    """Call statements nested `depth` blocks deep whose length (indentation included) lies just below and just above `limit`, and just below and above
+    limit - indentation: whether a statement is laid out on one line or several must not depend on whether it is laid out alone or inside its parent."""
+    lines = ["def run(a, b, c, d):"]
+    for k in range(depth):
+        lines.append("    " * (k + 1) + f"if a > {k}:")
+    pad = "    " * (depth + 1)
+    for total in sorted({limit - 3, limit - 1, limit, limit + 1, limit + 4, limit - len(pad) - 1, limit - len(pad) + 2, 58, 60, 61}):
+        name_len = total - len(pad) - len(" = combine(a, b, c, d)")
+        if name_len >= 3:
+            lines.append(pad + "v" + "x" * (name_len - 1) + " = combine(a, b, c, d)")
+    lines.append(pad + "print(a, b)")
+    return "\n".join(lines) + "\n    return None\n\n\ndef combine(*args):\n    return args\n\n\nrun(1, 2, 3, 4)\n"
+
+
 HEAVY = [_many_sites(140)]  # more sites than 5 applications x 25 passes of a rule that handles one site per pass
+
+NEAR_LIMIT = [(_statements_near_the_line_limit(d, limit), limit) for d, limit in ((1, 60), (2, 60), (5, 79), (8, 79), (11, 100), (12, 100), (12, 60), (3, 120))]
 
 ANTAGONISTS = [
     _many_sites(14, 270),
@@ -155,6 +172,9 @@ def main() -> int:
             cases.append({"id": f"branch_pair{i}", "text": t, "options": o})
     for i, t in enumerate(HEAVY):
         cases.append({"id": f"heavy{i}", "text": t, "options": {"safe": True}})
+    for i, (t, limit) in enumerate(NEAR_LIMIT):
+        for o in ([{"max_line_length": limit}, {"max_line_length": 60}, {"max_line_length": 79}, {}] if thorough else [{"max_line_length": limit}, {"max_line_length": 60}]):
+            cases.append({"id": f"near_limit{i}", "text": t, "options": o})
     for k in range(120 if thorough else 30):
         a, b, c = r.sample(ANTAGONISTS, 3)
         cases.append({"id": f"mix{k}", "text": a + "\n\n" + b + "\n\n" + c, "options": r.choice(opts)})
